@@ -223,3 +223,30 @@ def check(ctx: Ctx) -> None:
         ob.require(ninit >= 1, "_initreceive anchor missing in serve")
         if nmt == 0:
             ob.violation(fv, fv.node, "serve() does not distinguish the main_thread_only backend before starting the receiver", construct="main_thread_only test missing in serve")
+
+    # the hand-over waits for the previous Reply while holding _running_lock: the Reply must complete without needing that lock
+    from .C09 import check_reply_completion
+    check_reply_completion(ctx, "C14.f")
+
+    with ctx.obligation("C14.e", "completion-needs-no-receiver-lock") as ob:
+        # the receiver thread holds _receivelock while it waits (up to 1 s) for the previous task's completion event; everything the
+        # finishing task does before it sets that event -- closing its channel -- must therefore not need _receivelock
+        fe_ = repo.func("gateway_base.WorkerGateway.executetask")
+        onpath = ["gateway_base.Channel.close", "gateway_base.ChannelFactory._no_longer_opened", "gateway_base.BaseGateway._send", "gateway_base.Message.to_io"]
+        nfn = 0
+        for q in onpath:
+            f_ = repo.func(q)
+            nfn += 1
+            for n_ in repo.own_nodes(f_):
+                locks_ = []
+                if isinstance(n_, ast.With):
+                    locks_ = [unparse(i_.context_expr) for i_ in n_.items]
+                elif isinstance(n_, ast.Call) and isinstance(n_.func, ast.Attribute) and n_.func.attr == "acquire":
+                    locks_ = [unparse(n_.func.value)]
+                for l_ in locks_:
+                    if l_.endswith("_receivelock"):
+                        ob.violation(f_, n_, f"{f_.short} takes _receivelock, and it runs in the finishing task before _executetask_complete.set(): a remote_exec arriving "
+                                             "right after the previous channel closed finds the lock held by the receiver's own 1 s wait, the wait times out and the request "
+                                             "is answered with a false deadlock error", construct=f"{f_.short} acquires _receivelock")
+            ob.site(f_, f_.node, f"{f_.short} (on the path from the end of the body to the completion event) takes no receiver lock")
+        ob.require(nfn == 4, "completion path functions not found")
